@@ -5,7 +5,8 @@
    model index < n, the linear biases and interactions are over its local indices and the hash
    map indices_ is exactly the inverse of variables_. *)
 From Coq Require Import List ZArith QArith Qcanon Bool Arith.
-From Dimod Require Import Base.Util Model.Poly Model.Expr Model.CQMSpec Proofs.PolyFacts Proofs.ExprFacts Proofs.ExprViewFacts Proofs.RefineFacts.
+From Dimod Require Import Base.Util Model.Poly Model.Expr Model.ExprOps Model.CQMSpec Proofs.PolyFacts Proofs.ExprFacts Proofs.ExprViewFacts
+  Proofs.RefineFacts Proofs.ExprSim Proofs.CqmSim Proofs.SpecEnergy.
 Import ListNotations.
 Local Open Scope nat_scope.
 
@@ -94,7 +95,7 @@ Print Assumptions C05_remove_then_reindex_all.
 
 (* --- refinement M -> S for removal: through the label list the index-level removal is the
        plain-polynomial removal of that label; surviving variables keep their label, type, bounds --- *)
-Theorem C05_cqm_refines_spec_remove_variable_partial :
+Theorem C05_cqm_refines_spec_remove_variable_labels :
   forall q v labels,
     CqmInv q -> NoDup labels -> length labels = length (m_info q) -> v < length (m_info q) ->
     let q' := cqm_remove_variable v q in
@@ -105,7 +106,7 @@ Theorem C05_cqm_refines_spec_remove_variable_partial :
     /\ (forall u, u <> v ->
           nth_error (combine (remove_nth v labels) (m_info q')) (shift v u) = nth_error (combine labels (m_info q)) u).
 Proof. exact cqm_remove_variable_refines_spec. Qed.
-Print Assumptions C05_cqm_refines_spec_remove_variable_partial.
+Print Assumptions C05_cqm_refines_spec_remove_variable_labels.
 
 (* --- the moved-in constraint (add_constraint(QM&&)) and its emptied source --- *)
 Theorem C05_move_preserves_invariant :
@@ -181,6 +182,168 @@ Theorem C05_flip_variable_discrete_mark :
 Proof. exact flip_variable_marks. Qed.
 Print Assumptions C05_flip_variable_discrete_mark.
 
+(* ===================================================================================================
+   Whole histories (index level).  mop / mstep (Model/ExprOps.v) is the C++ ConstrainedQuadraticModel API:
+   add_variable, set_vartype/bounds, remove_variable, fix_variable, substitute_variable (flip_variable,
+   change_vartype), every edit through the objective / a constraint view (add_linear, set_linear,
+   add_quadratic, remove_interaction, remove_variable, add_offset, offset :=, clear), add_constraint by
+   copy and by move, remove_constraint, weight/penalty/mark.  sstep is the same history on a plain list
+   of polynomials.  peq a b: equal energy at every sample (= equal coefficients, CoeffSound).
+   =================================================================================================== *)
+
+(* ExprInv holds for the objective and every constraint after EVERY history *)
+Theorem C05_expr_inv_reachable : forall ops, CqmInv (mrun ops m_empty).
+Proof. exact expr_inv_reachable. Qed.
+Print Assumptions C05_expr_inv_reachable.
+
+(* ... and the model stands for what the plain list of polynomials holds *)
+Theorem C05_cqm_refines_spec : forall ops, Sim (mrun ops m_empty) (srun ops s_empty).
+Proof. exact cqm_refines_spec. Qed.
+Print Assumptions C05_cqm_refines_spec.
+
+Theorem C05_cqm_refines_spec_coefficients :
+  forall ops n,
+    let q := mrun ops m_empty in let sq := srun ops s_empty in
+    poly_coeff_eqb n (abs_expr (m_obj q)) (s_obj sq) = true
+    /\ Forall2 (fun k p => poly_coeff_eqb n (abs_expr (mc_e k)) p = true) (m_cons q) (s_cons sq).
+Proof. exact cqm_refines_spec_coefficients. Qed.
+Print Assumptions C05_cqm_refines_spec_coefficients.
+
+(* one step, from any state satisfying invariant + simulation *)
+Theorem C05_step_refines : forall q sq o, State q sq -> State (mstep q o) (sstep sq o).
+Proof. exact step_state. Qed.
+Print Assumptions C05_step_refines.
+
+Theorem C05_state_is_invariant_and_simulation : forall q sq, State q sq <-> CqmInv q /\ Sim q sq.
+Proof. exact State_iff. Qed.
+Print Assumptions C05_state_is_invariant_and_simulation.
+
+(* the single operations *)
+Theorem C05_view_edit_refines :
+  forall n vt o e p, ExprInv n e -> eop_ok n o = true -> peq (abs_expr e) p ->
+    ExprInv n (apply_eop vt o e) /\ peq (abs_expr (apply_eop vt o e)) (spec_eop vt o p).
+Proof. exact eop_step. Qed.
+Print Assumptions C05_view_edit_refines.
+
+Theorem C05_remove_interaction_correct :
+  forall n e u v, ExprInv n e -> abs_expr (m_remove_interaction u v e) = remove_interaction u v (abs_expr e).
+Proof. exact remove_interaction_abs. Qed.
+Print Assumptions C05_remove_interaction_correct.
+
+Theorem C05_substitute_variable_preserves_invariant :
+  forall n e v m c, ExprInv n e -> ExprInv n (m_substitute v m c e).
+Proof. exact substitute_inv. Qed.
+Print Assumptions C05_substitute_variable_preserves_invariant.
+
+Theorem C05_substitute_variable_refines :
+  forall n e v m c s, ExprInv n e ->
+    energy (abs_expr (m_substitute v m c e)) s = energy (substitute v m c (abs_expr e)) s.
+Proof. exact substitute_sim. Qed.
+Print Assumptions C05_substitute_variable_refines.
+
+Theorem C05_fix_variable_preserves_invariant :
+  forall n e v a, ExprInv n e -> (v < n)%nat -> ExprInv (pred n) (m_fix v a e).
+Proof. exact fix_inv. Qed.
+Print Assumptions C05_fix_variable_preserves_invariant.
+
+(* the fixed expression at any assignment of the remaining (re-indexed) variables = the original at
+   that assignment extended by v := a *)
+Theorem C05_fix_variable_energy :
+  forall n e v a s, ExprInv n e ->
+    energy (abs_expr (m_fix v a e)) s = energy (abs_expr e) (upd (fun u => s (shift v u)) v a).
+Proof. exact fix_energy. Qed.
+Print Assumptions C05_fix_variable_energy.
+
+Theorem C05_fix_variable_refines :
+  forall n e v a s, ExprInv n e ->
+    energy (abs_expr (m_fix v a e)) s = energy (relabel (shift v) (fix_variable v a (abs_expr e))) s.
+Proof. exact fix_sim. Qed.
+Print Assumptions C05_fix_variable_refines.
+
+Theorem C05_add_constraint_copy_refines :
+  forall n vt lin quad off mapping, mapping_ok n lin quad mapping = true ->
+    ExprInv n (expr_from_copy vt lin quad off mapping)
+    /\ peq (abs_expr (expr_from_copy vt lin quad off mapping)) (spec_from_copy vt lin quad off mapping).
+Proof. exact copy_step. Qed.
+Print Assumptions C05_add_constraint_copy_refines.
+
+Theorem C05_add_constraint_move_refines :
+  forall n lin quad off mapping, mapping_ok n lin quad mapping = true ->
+    ExprInv n (expr_from_move lin quad off mapping)
+    /\ abs_expr (expr_from_move lin quad off mapping) = spec_from_move lin quad off mapping.
+Proof. exact move_step. Qed.
+Print Assumptions C05_add_constraint_move_refines.
+
+(* ===================================================================================================
+   S level (labels): effect of the energy-relevant operations of CQMSpec on the energies of the
+   objective and every constraint left-hand side
+   =================================================================================================== *)
+Theorem C05_spec_fix_variable_energies :
+  forall l a q q', fix_one l a q = (q', XNone) -> forall s, energies q' s = energies q (upd s l a).
+Proof. exact fix_variable_energies. Qed.
+Print Assumptions C05_spec_fix_variable_energies.
+
+Theorem C05_spec_flip_variable_energies :
+  forall l q q' x, find_var l (q_vars q) = Some x -> flip l q = (q', XNone) ->
+    forall s, energies q' s = energies q (upd s l (match v_vt x with BINARY => 1 - s l | _ => - s l end))%Qc.
+Proof. exact flip_variable_energies. Qed.
+Print Assumptions C05_spec_flip_variable_energies.
+
+Theorem C05_spec_change_vartype_energies :
+  forall vt l q q' x, find_var l (q_vars q) = Some x -> change_vartype vt l q = (q', XNone) ->
+    forall s, energies q' s =
+              energies q (match v_vt x, vt with
+                          | SPIN, BINARY | SPIN, INTEGER => upd s l (two * s l - 1)%Qc
+                          | BINARY, SPIN => upd s l ((s l + 1) * half)%Qc
+                          | _, _ => s
+                          end).
+Proof. exact change_vartype_energies. Qed.
+Print Assumptions C05_spec_change_vartype_energies.
+
+Theorem C05_spec_relabel_variables_energies :
+  forall mp q q', relabel_vars mp q = (q', XNone) ->
+    forall s, energies q' s = energies q (fun v => s (relabel_fun mp v)).
+Proof. exact relabel_variables_energies. Qed.
+Print Assumptions C05_spec_relabel_variables_energies.
+
+Theorem C05_spec_remove_variable_energies :
+  forall l q s, energies (remove_var_raw l q) s = energies q (upd s l 0%Qc).
+Proof. exact remove_variable_energies. Qed.
+Print Assumptions C05_spec_remove_variable_energies.
+
+Theorem C05_spec_model_expression_energy :
+  forall vt d s,
+    energy (desc_poly vt d) s =
+    (d_off d + lin_energy (d_lin d) s
+     + qsum (map (fun t : qterm => let '(u, v, b) := t in
+                   if (u =? v)%nat then match vt u with BINARY => b * s u | SPIN => b | _ => b * s u * s u end
+                   else b * s u * s v) (d_quad d)))%Qc.
+Proof. exact desc_poly_energy. Qed.
+Print Assumptions C05_spec_model_expression_energy.
+
+Theorem C05_spec_view_add_quadratic_energy :
+  forall vt u v b p s,
+    energy (s_addq vt u v b p) s =
+    (energy p s + (if (u =? v)%nat then match vt u with BINARY => b * s u | SPIN => b | _ => b * s u * s u end
+                   else b * s u * s v))%Qc.
+Proof. exact view_add_quadratic_energy. Qed.
+Print Assumptions C05_spec_view_add_quadratic_energy.
+
+Theorem C05_spec_view_set_linear_energy :
+  forall v b p s, energy (set_linear v b p) s = (energy p s + (b - lin_coeff (p_lin p) v) * s v)%Qc.
+Proof. exact view_set_linear_energy. Qed.
+Print Assumptions C05_spec_view_set_linear_energy.
+
+Theorem C05_spec_view_remove_interaction_energy :
+  forall u v p s, energy (remove_interaction u v p) s = (energy p s - quad_coeff (p_quad p) u v * s u * s v)%Qc.
+Proof. exact view_remove_interaction_energy. Qed.
+Print Assumptions C05_spec_view_remove_interaction_energy.
+
+Theorem C05_spec_view_remove_variable_energy :
+  forall v p s, energy (remove_variable v p) s = energy p (upd s v 0%Qc).
+Proof. exact view_remove_variable_energy. Qed.
+Print Assumptions C05_spec_view_remove_variable_energy.
+
 (* --- the hypotheses are satisfiable on non-trivial data --- *)
 Definition ex_e : mexpr :=
   m_add_quadratic (fun _ => INTEGER) 4 1 (qc 3 1) (m_add_linear 3 (qc 5 2) (m_add_linear 0 (qc 1 1) e_empty)).
@@ -204,4 +367,16 @@ Example C05_example_discrete_mark_not_restored :
   /\ existsb (is_onehot (q_vars (run ex_discrete empty_cqm))) (q_cons (run ex_discrete empty_cqm)) = true
   /\ existsb (is_discrete (q_vars (run ex_flip empty_cqm))) (q_cons (run ex_flip empty_cqm)) = false
   /\ existsb (is_onehot (q_vars (run ex_flip empty_cqm))) (q_cons (run ex_flip empty_cqm)) = true.
+Proof. vm_compute. repeat split; reflexivity. Qed.
+
+Definition ex_hist : list mop :=
+  [MAddVariable (mkI INTEGER (qc 0 1) (qc 5 1)); MAddVariable (mkI BINARY (qc 0 1) (qc 1 1));
+   MAddVariable (mkI SPIN (qc (-1) 1) (qc 1 1));
+   MEdit EObj (EAddQuadratic 2 0 (qc 3 1)); MEdit EObj (EAddLinear 1 (qc 1 2));
+   MAddConstraintMove [qc 1 1; qc 2 1] [(0, 1, qc 5 1)]%nat (qc 1 1) [2; 0]%nat 0%nat (qc 1 1);
+   MSubstitute 2 (qc 2 1) (qc (-1) 1); MFixVariable 0 (qc 2 1); MRemoveVariable 0].
+
+Example C05_example_history :
+  e_vars (m_obj (mrun ex_hist m_empty)) = [0%nat] /\ length (m_info (mrun ex_hist m_empty)) = 1%nat
+  /\ poly_coeff_eqb 3 (abs_expr (m_obj (mrun ex_hist m_empty))) (s_obj (srun ex_hist s_empty)) = true.
 Proof. vm_compute. repeat split; reflexivity. Qed.
